@@ -63,11 +63,13 @@ FAMILIES = {
     "Taint": fam("MC_Taint",
                  quick=[sim(640, 5, design=False, NSlots="= 2", Fresh="= TRUE"),
                         sim(320, 5, design=False, NSlots="= 2", Fresh="= TRUE", Shapes="<- ShapesR", Shapes2="<- Shapes2R"),
-                        chain(4, hops=2, Fresh="= TRUE", Ops="<- OpsBarrier", Shapes="<- ShapesR", Shapes2="<- Shapes2R")],
+                        chain(4, hops=2, Fresh="= TRUE", Ops="<- OpsBarrier", Shapes="<- ShapesR", Shapes2="<- Shapes2R"),
+                        sim(160, 4, design=False, NSlots="= 2", Fresh="= TRUE", Shapes="<- ShapesLong", Shapes2="<- Shapes2R")],
                  thorough=[sim(20000, 7, design=False, NSlots="= 3", Fresh="= TRUE"),
                            sim(10000, 7, design=False, NSlots="= 3", Fresh="= TRUE", Shapes="<- ShapesR",
                                Shapes2="<- Shapes2R"),
-                           chain(4, hops=2, Fresh="= TRUE", Ops="<- OpsBarrier", Shapes="<- ShapesR", Shapes2="<- Shapes2R")]),
+                           chain(4, hops=2, Fresh="= TRUE", Ops="<- OpsBarrier", Shapes="<- ShapesR", Shapes2="<- Shapes2R"),
+                           sim(3000, 6, design=False, NSlots="= 2", Fresh="= TRUE", Shapes="<- ShapesLong", Shapes2="<- Shapes2R")]),
     "Format": fam("MC_Format", full=True,
                   quick=[chain(2, hops=0), sim(400, 5, design=False, NSlots="= 2")],
                   thorough=[ex(2), chain(2, hops=0), sim(8000, 7, design=False, NSlots="= 3")]),
@@ -86,11 +88,13 @@ FAMILIES = {
                                thorough=dict(runs=[dict(constants={"MaxD": "= 20", "Dup": "= FALSE"}),
                                                    dict(constants={"MaxD": "= 20", "Dup": "= TRUE"})]))),
     "Grpc": fam("MC_Grpc",
-                quick=[chain(3), ex(2, NilOps="= TRUE", HopLast="= 1"), sim(600, 6, design=False, NSlots="= 2")],
-                thorough=[chain(4, hops=2), sim(10000, 8, design=False, NSlots="= 3", NilOps="= TRUE")]),
+                quick=[chain(3), ex(2, NilOps="= TRUE", HopLast="= 1"), sim(600, 6, design=False, NSlots="= 2"),
+                       chain(5, Ops="<- OpsCode", Shapes="<- ShapesOne")],
+                thorough=[chain(4, hops=2), sim(10000, 8, design=False, NSlots="= 3", NilOps="= TRUE"),
+                          chain(6, Ops="<- OpsCode", Shapes="<- ShapesOne")]),
     "Compat": fam("MC_Compat",
-                  quick=[ex(2), chain(3, hops=0), sim(1500, 6, design=False, NSlots="= 3")],
-                  thorough=[ex(3), chain(3, hops=0), sim(30000, 8, design=False, NSlots="= 3")]),
+                  quick=[ex(2, NilOps="= TRUE"), chain(3, hops=0), sim(1500, 6, design=False, NSlots="= 3", NilOps="= TRUE")],
+                  thorough=[ex(3, NilOps="= TRUE"), chain(3, hops=0), sim(30000, 8, design=False, NSlots="= 3", NilOps="= TRUE")]),
     "Concurrent": dict(module="MC_Concurrent", spec="CSpec", race=True,
                        constants=dict(BASE, NSlots="= 2", COps="<- COpsQuick", Storm="= 16", BuildD="= 4"),
                        invariants=["Emit"],
